@@ -143,13 +143,21 @@ func defaultValueToString(value any) string {
 }
 
 // populateDefaultQueryParameters populates default values inside query parameters, while ensuring types are respected
-func populateDefaultQueryParameters(q url.Values, parameterName string, value any, explode bool) {
+func populateDefaultQueryParameters(q url.Values, parameterName string, value any, explode bool, style string) {
 	switch t := value.(type) {
 	case []any:
 		if explode {
 			appendToQueryValues(q, parameterName, t)
 		} else {
-			q.Add(parameterName, joinValues(t, ","))
+			// written with the delimiter of the parameter's style, which is what the decoder splits on
+			sep := ","
+			switch style {
+			case openapi3.SerializationSpaceDelimited:
+				sep = " "
+			case openapi3.SerializationPipeDelimited:
+				sep = "|"
+			}
+			q.Add(parameterName, joinValues(t, sep))
 		}
 	default:
 		q.Add(parameterName, primitiveToString(value))
@@ -212,7 +220,7 @@ func ValidateParameter(ctx context.Context, input *RequestValidationInput, param
 				// form is the default query style and it explodes unless told otherwise,
 				// which is also what the decoder assumes when reading the value back
 				explode := parameter.Explode == nil || *parameter.Explode
-				populateDefaultQueryParameters(q, parameter.Name, value, explode)
+				populateDefaultQueryParameters(q, parameter.Name, value, explode, parameter.Style)
 				req.URL.RawQuery = q.Encode()
 				// the input caches the parsed query: keep it in step with the request,
 				// or validating this input again would add the default a second time
